@@ -114,7 +114,10 @@ def item_label(steps):
     return "::".join(names)
 
 
-def process(template_path, repo, vacuity=False, verif_root=None):
+def process(template_path, repo, vacuity=False, verif_root=None, assume_mode=False):
+    """assume_mode: used by `//@import <unit>` — only the export region of the template is emitted and every
+    extracted fn is reduced to signature + contract with `#[verifier::external_body]` (its proof lives in
+    the unit that owns the template)."""
     verif_root = verif_root or os.path.dirname(os.path.dirname(os.path.abspath(__file__)))
     unit = Unit(os.path.splitext(os.path.basename(template_path))[0])
     with open(template_path, encoding="utf-8") as f:
@@ -127,9 +130,35 @@ def process(template_path, repo, vacuity=False, verif_root=None):
 
     i = 0
     n = len(tlines)
+    exporting = not assume_mode
     while i < n:
         line = tlines[i]
         s = line.strip()
+        if s == "//@export-begin":
+            exporting = True
+            i += 1
+            continue
+        if s == "//@export-end":
+            exporting = not assume_mode
+            i += 1
+            continue
+        if not exporting:
+            if s.startswith("//@extract "):
+                while i < n and tlines[i].strip() != "//@end":
+                    i += 1
+            i += 1
+            continue
+        if s.startswith("//@import "):
+            iu = s.split()[1]
+            sub = process(os.path.join(verif_root, "contracts", iu + ".vrs"), repo, vacuity=False,
+                          verif_root=verif_root, assume_mode=True)
+            for k, l in enumerate(sub.text.split("\n")):
+                o = sub.linemap[k] if k < len(sub.linemap) else None
+                emit(l, ("spec", "import:" + iu, k + 1, None))
+            unit.imports = getattr(unit, "imports", []) + [iu]
+            unit.sources |= sub.sources
+            i += 1
+            continue
         if s.startswith("//@property"):
             unit.properties += s.split()[1:]
             i += 1
@@ -162,7 +191,7 @@ def process(template_path, repo, vacuity=False, verif_root=None):
             if i >= n:
                 raise ValueError("%s: //@extract without //@end" % trel)
             i += 1  # skip //@end
-            _extract_item(unit, out, repo, rel, sel, subs, trel, vacuity)
+            _extract_item(unit, out, repo, rel, sel, subs, trel, vacuity, assume_mode)
             continue
         if s.startswith("//@"):
             raise ValueError("%s:%d: unknown directive %s" % (trel, i + 1, s))
@@ -181,7 +210,7 @@ def process(template_path, repo, vacuity=False, verif_root=None):
     return unit
 
 
-def _extract_item(unit, out, repo, rel, sel, subs, trel, vacuity):
+def _extract_item(unit, out, repo, rel, sel, subs, trel, vacuity, assume_mode=False):
     sf = load_source(repo, rel)
     unit.sources.add(rel)
     steps = parse_selector(sel)
@@ -203,6 +232,13 @@ def _extract_item(unit, out, repo, rel, sel, subs, trel, vacuity):
     has_spec = False
     external = False
     loops = None
+    if assume_mode and item.kind == "fn" and item.body_open is not None:
+        subs = [x for x in subs if x[0] in ("spec", "ret", "attr", "keep-attrs")
+                or (x[0] == "rewrite" and x[1].split()[0] in ("R13",))]
+        opts = {x[0] for x in subs}
+        if not any("external_body" in (x[1] + " ".join(x[2])) for x in subs if x[0] == "attr"):
+            edits.append((start, 0, "#[verifier::external_body]\n", 0))
+        repls.append((item.body_open, end, "{ unimplemented!() }", 0, "ASSUME", "<body>"))
     for kw, args, pl, tl in subs:
         if kw in ("keep-attrs", "novacuity", "strip-inner-attrs"):
             continue
@@ -356,6 +392,8 @@ def _extract_item(unit, out, repo, rel, sel, subs, trel, vacuity):
                 k += 1
 
     for rs, re_, to, tl, rule, frm in repls:
+        if rule == "ASSUME":
+            continue
         unit.rewrites.append({"rule": rule, "item": label, "file": rel, "line": sf.line_of(rs),
                               "from": frm, "to": to})
 
